@@ -45,6 +45,7 @@ type person struct {
 	Email string
 	Meta  map[string]interface{}
 	Pat   string
+	Seen  int64 // an instant, as Unix seconds
 }
 
 // workloadLimit: a workload takes seconds; one that has not finished after
@@ -72,7 +73,8 @@ var metaPool = func() []map[string]interface{} {
 
 func personFor(i int) person {
 	names := []string{"Steve", "bob", "Alice", "re: hello", "Zoë", "x"}
-	return person{Name: names[i%len(names)], Age: 10 + (i*7)%60, Tags: []string{"a", fmt.Sprint(i % 5)}, Email: fmt.Sprintf("u%d@example.com", i%9), Meta: metaPool[i%len(metaPool)], Pat: fmt.Sprintf("^u%d@", i%9)}
+	return person{Name: names[i%len(names)], Age: 10 + (i*7)%60, Tags: []string{"a", fmt.Sprint(i % 5)}, Email: fmt.Sprintf("u%d@example.com", i%9), Meta: metaPool[i%len(metaPool)], Pat: fmt.Sprintf("^u%d@", i%9),
+		Seen: 1700000000 + int64(i)*100003}
 }
 
 // withFreshPattern gives the object a pattern no run has used before (it
@@ -106,7 +108,7 @@ func objectFor(i int) interface{} {
 	case 1:
 		return &p
 	case 2:
-		return map[string]interface{}{"Name": p.Name, "Age": p.Age, "Tags": p.Tags, "Email": p.Email, "Meta": p.Meta, "Pat": p.Pat}
+		return map[string]interface{}{"Name": p.Name, "Age": p.Age, "Tags": p.Tags, "Email": p.Email, "Meta": p.Meta, "Pat": p.Pat, "Seen": p.Seen}
 	}
 	return p
 }
@@ -122,6 +124,7 @@ var sharedScripts = []string{
 	`count = count + 1; n = 0; foreach t in Tags { n = n + len(t); } return n > 1 && between(Age, 10, 40);`,
 	`count++; return count;`,
 	`count = count + 1; return replace(Name, /[aeiou]/, "_") != Name;`,
+	`count++; return hour(Seen) > 11 || weekday(Seen) == "Monday" || day(Seen) + month(Seen) == 20;`,
 	// runs that fail for some objects, inside loop and function scopes
 	`count++; foreach t in Tags { if ( t == "3" ) { return 1 % (len(t) - 1); } } return Age > 30;`,
 	`function chk(t) { local z; z = len(t); if ( t == "2" ) { return t + z; } return z; } count = count + 1; n = 0; foreach i, t in Tags { n = n + chk(t); } return n > 1;`,
@@ -154,6 +157,9 @@ var ownScripts = []string{
 	`return [len(keys(BigHash)), keys(BigHash)[3], "k7" in keys(BigHash), len(string(BigHash))];`,
 	`s = string(BigHash); return [len(s), s ~= /k59/, type(BigHash[Name])];`,
 	`n = 0; foreach c in BigWord { n++; } return [n, BigWord[2], "w1" in BigWord, upper(BigWord), BigNumber + Age, BigFloat * 2];`,
+	// the parts of an instant (another one for every object)
+	`return [hour(Seen), minute(Seen), seconds(Seen), day(Seen), month(Seen), year(Seen), weekday(Seen)];`,
+	`return hour(Seen) * 60 + minute(Seen) > 700 || weekday(Seen) == "Monday";`,
 	// patterns that only exist at run time
 	`return match(Email, Pat);`,
 	`return [match(Email, Pat), replace(Email, Pat, "<>")];`,
@@ -171,7 +177,7 @@ func oddRecord(i, n int) interface{} {
 	st := reflect.StructOf([]reflect.StructField{
 		{Name: "Name", Type: reflect.TypeOf("")}, {Name: "Age", Type: reflect.TypeOf(0)}, {Name: "Tags", Type: reflect.TypeOf([]string{})},
 		{Name: "Email", Type: reflect.TypeOf("")}, {Name: "Meta", Type: reflect.TypeOf(map[string]interface{}{})}, {Name: "Pat", Type: reflect.TypeOf("")},
-		{Name: "Odd", Type: oddType}})
+		{Name: "Odd", Type: oddType}, {Name: "Seen", Type: reflect.TypeOf(int64(0))}})
 	v := reflect.New(st).Elem()
 	v.Field(0).SetString(p.Name)
 	v.Field(1).SetInt(int64(p.Age))
@@ -179,6 +185,7 @@ func oddRecord(i, n int) interface{} {
 	v.Field(3).SetString(p.Email)
 	v.Field(4).Set(reflect.ValueOf(p.Meta))
 	v.Field(5).SetString(p.Pat)
+	v.Field(7).SetInt(p.Seen)
 	return v.Interface()
 }
 
